@@ -212,7 +212,7 @@ func c17(args []string) int {
 		}
 		tjobs[i] = &histJob{id: 400000 + i + 1, spec: &sp}
 	}
-	runAll(tjobs, 300)
+	runAll(tjobs, 200)
 	tsh := run.NewShard("From Coq Require Import List ZArith Bool.\nFrom MV Require Import Model.ProxyTimeout Model.Proxy Gen.ProxyTokens.\nImport ListNotations.\nOpen Scope Z_scope.\n",
 		"tcase", "timeout_mismatches proxy_default_global_ms")
 	for i, t := range ts {
@@ -324,7 +324,7 @@ func c17(args []string) int {
 	for i, sp := range specs {
 		jobs[i] = &histJob{id: 500000 + i + 1, spec: sp}
 	}
-	runAll(jobs, 400)
+	runAll(jobs, 200)
 	for _, j := range jobs {
 		run.Sum.Distribution[fmt.Sprintf("attempts:%d", countNew(j.res))]++
 	}
